@@ -12,6 +12,7 @@ package main
 // this environment does.
 
 import (
+	"crypto/rand"
 	"fmt"
 	mrand "math/rand"
 
@@ -107,8 +108,8 @@ func newOpenRun(out *TraceWriter, seed int64, run int, epoch int64, emitStart bo
 	}
 	n.RMsgOrder = func(k int) []int { return rng.Perm(k) }
 	n.Height = h0
+	n.TipTs = uint64(epoch) - uint64(rng.Intn(900)) // every absolute instant derives from the injected clock
 	if h0 > 0 {
-		n.TipTs = uint64(epoch) - uint64(rng.Intn(900))
 		n.TipHash = H(fmt.Sprintf("T:%d", h0))
 	}
 	c.Nodes = []*Node{n}
@@ -239,7 +240,7 @@ func (o *openRun) step() *Line {
 			n.FailBlock = 1
 		case 2:
 			k := rng.Intn(50)
-			n.RejectPayload = func(p *Payload) bool { return (len(p.Key())+k)%7 == 0 }
+			n.RejectPayload = func(p *Payload) bool { return (int(p.T)+3*int(p.From)+int(p.V)+k)%7 == 0 }
 		case 3:
 			n.NilBlock = rng.Intn(3) == 0
 		default:
@@ -462,4 +463,78 @@ func (o *openRun) craft() *Payload {
 		}
 		return &Payload{T: dbft.RecoveryMessageType, Ht: ph, V: pv, From: uint16(from), Body: rm}
 	}
+}
+
+// Pair is one step of driver "shift" (C14): the same environment action applied to two nodes whose
+// injected clocks differ by Delta.
+type Pair struct {
+	Call  string `json:"call"` // "Pair"
+	Run   int    `json:"run"`
+	I     int    `json:"i"`
+	Delta int64  `json:"delta"`
+	A     *Line  `json:"a"`
+	B     *Line  `json:"b"`
+}
+
+// runShift: the open driver twice in lockstep, same seed, clocks E and E + delta.
+func runShift(out *TraceWriter, seed int64, run int, steps int) {
+	rsel := mrand.New(mrand.NewSource(seed*77 + int64(run)))
+	delta := []int64{7000, 700000, 999999994, 70, 7000000}[rsel.Intn(5)]
+	base := int64(5000 + 7*rsel.Intn(1000))
+	srcA := &detReader{r: mrand.New(mrand.NewSource(seed*7 + int64(run)))}
+	srcB := &detReader{r: mrand.New(mrand.NewSource(seed*7 + int64(run)))}
+	rand.Reader = srcA
+	a := newOpenRun(out, seed, run, base, false, 500)
+	rand.Reader = srcB
+	b := newOpenRun(out, seed, run, base+delta, false, 500)
+	a.noDup, b.noDup = true, true
+	out.Write(RunStart{Call: "RunStart", Run: run, Seed: seed, Driver: "shift", Nodes: []int{500}, Faulty: []int{},
+		Params: map[string]any{"delta": delta, "base": base, "n0": a.nvals[0], "myIndex": a.myIdx[0]}})
+	i := 0
+	emit := func(la, lb *Line) bool {
+		if (la == nil) != (lb == nil) {
+			la, lb = nonNil(la), nonNil(lb)
+		}
+		if la == nil {
+			return true
+		}
+		i++
+		la.I, lb.I = i, i
+		out.Write(Pair{Call: "Pair", Run: run, I: i, Delta: delta, A: la, B: lb})
+		// replay order of cached payloads is random as soon as one cache map holds two entries:
+		// the two runs may then legitimately differ, stop comparing
+		for _, o := range []*openRun{a, b} {
+			for _, in := range o.n.D.VerifSnapshot().Cache {
+				if len(in.Prepare) > 1 || len(in.ChViews) > 1 || len(in.PreCommit) > 1 || len(in.Commit) > 1 {
+					return false
+				}
+			}
+		}
+		return la.Panic == "" && lb.Panic == ""
+	}
+	rand.Reader = srcA
+	la := a.n.Start()
+	rand.Reader = srcB
+	lb := b.n.Start()
+	if !emit(la, lb) {
+		return
+	}
+	for s := 0; s < steps; s++ {
+		rand.Reader = srcA
+		la = a.step()
+		rand.Reader = srcB
+		lb = b.step()
+		if !emit(la, lb) {
+			return
+		}
+	}
+}
+
+func nonNil(l *Line) *Line {
+	if l == nil {
+		return &Line{Call: "None", Arg: NoArg{}, Cb: []CbRec{}, Post: &PState{Txs: []string{}, Have: []string{}, Missing: []string{}, Vals: []int{},
+			Prep: []Slot{}, Pc: []Slot{}, Cm: []Slot{}, Cv: []Slot{}, LastCv: []Slot{}, Seen: []Slot{}, Cache: []InboxRec{}, Timer: TimerRec{K: "none"}},
+			Ledger: LedgerRec{Vals: []int{}}, App: AppRec{Known: []string{}, Pool: []string{}, Bad: []string{}}}
+	}
+	return l
 }
